@@ -18,7 +18,7 @@ pub fn info() -> PropInfo {
         id: "C06",
         run,
         replay,
-        rule: "cases = (value of one of 18 derive(Serialize, Deserialize) types covering the mapping table: attributes, child elements, $text, optional fields skipped when None, element lists, xs:list in attribute and text, unit/newtype/struct enum variants in $value, mixed $value lists of element and text choices, nested structs, maps with name-like keys, tuples, newtypes, units, top-level enums, numeric extremes, recursive trees; serializer options: 3 quote levels x indent none/space/tab width 0-4 x expand-empty x root renamed or not). Oracle: serialization returns Ok and from_str of the output equals the value. Non-trivial = a string payload contains a character that some quote level escapes, or the value holds a non-empty list/enum/optional. Strings of 16..300 characters, lists of 20..200 items, chains nested 20..60 deep and a list of structs with struct-typed fields (Rows) occur among the values.",
+        rule: "cases = (value of one of 20 derive(Serialize, Deserialize) types covering the mapping table: attributes, child elements, $text, optional fields skipped when None, element lists, xs:list in attribute and text, unit/newtype/struct enum variants in $value, mixed $value lists of element and text choices, nested structs, maps with name-like keys, tuples, newtypes, units, top-level enums, numeric extremes, recursive trees; serializer options: 3 quote levels x indent none/space/tab width 0-4 x expand-empty x root renamed or not). Oracle: serialization returns Ok and from_str of the output equals the value. Non-trivial = a string payload contains a character that some quote level escapes, or the value holds a non-empty list/enum/optional. Strings of 16..300 characters, lists of 20..200 items, chains nested 20..60 deep and a list of structs with struct-typed fields (Rows) occur among the values. One type has a `$value` list whose text choice is a TUPLE variant (`#[serde(rename = \"$text\")] T(u16, i8)`, written and read as an xs:list).",
         assumptions: &[
             "element/text strings and chars have no leading/trailing XML whitespace (documented trimming); attribute strings are unrestricted",
             "xs:list items are non-empty and free of XML whitespace; mixed lists never hold two adjacent text items or an empty text item (documented)",
